@@ -120,3 +120,16 @@ macro_rules! vassert {
     }};
 }
 pub(crate) use vassert;
+
+/// Kani stub for `_mm_add_epi32` (lane-wise wrapping add): Kani 0.68 inserts a spurious overflow assertion into simd_add.
+#[cfg(all(kani, target_arch = "x86_64"))]
+pub(crate) unsafe fn mm_add_epi32_model(a: core::arch::x86_64::__m128i, b: core::arch::x86_64::__m128i) -> core::arch::x86_64::__m128i {
+    let x: [u32; 4] = core::mem::transmute(a);
+    let y: [u32; 4] = core::mem::transmute(b);
+    core::mem::transmute([
+        x[0].wrapping_add(y[0]),
+        x[1].wrapping_add(y[1]),
+        x[2].wrapping_add(y[2]),
+        x[3].wrapping_add(y[3]),
+    ])
+}
